@@ -88,6 +88,8 @@ func runC09(e *Env) Outcome {
 		// whatever the builder leaves behind for a record that was cut.
 		if !t.Chance("records-allowed", 2, 3) {
 			o.Records = false
+		} else if t.Chance("record-bias", 1, 3) {
+			o.Records, o.RecordBias = true, true
 		}
 		// Forward references are left out as well: until its marker arrives a
 		// forward reference has no value, so "prefix" and "completely decoded"
@@ -115,6 +117,12 @@ func runC09(e *Env) Outcome {
 		e.Count("generator_rejects", rej)
 		doc = gdoc.Bytes
 		sc.Source = "encoded event stream"
+		for _, ev := range gdoc.Events {
+			if ev.K == rec.KRecord {
+				e.Count("docs_with_record_instances", 1)
+				break
+			}
+		}
 		if f == gen.CTE && !endsWithCloser(doc) {
 			e.Count("generator_rejects", 1)
 			return e.Finish(0, nil, sc)
